@@ -10,6 +10,7 @@ type c02Op struct {
 	id        int // handler id (subscribe/unsubscribe) or event value (publish)
 	once      bool
 	reject    bool // filter rejecting every event
+	odd       bool // filter accepting only odd event values
 	call, ret int
 	ok        bool // unsubscribe returned nil
 }
@@ -20,7 +21,12 @@ func c02Pick(slot int) c02Op {
 	case 0:
 		o.id = vPick(2)
 		o.once = vBool()
-		o.reject = vBool()
+		switch vInt(0, 2) {
+		case 1:
+			o.reject = true
+		case 2:
+			o.odd = true
+		}
 	case 1:
 		o.id = vPick(2)
 	case 3:
@@ -39,6 +45,9 @@ func c02Run(bus *EventBus, o *c02Op) {
 		}
 		if o.reject {
 			so = append(so, WithFilter(func(e evA) bool { return false }))
+		}
+		if o.odd {
+			so = append(so, WithFilter(func(e evA) bool { return e.N%2 == 1 }))
 		}
 		Subscribe(bus, c01HA[o.id], so...)
 	case 1:
@@ -75,8 +84,9 @@ func c02Oracle(bus *EventBus, ops []*c02Op) {
 			}
 			g := got(r.id, p.id)
 			total += g
-			must := r.ret < p.call && !r.reject
-			mustNot := r.call > p.ret || r.reject
+			acc := !r.reject && (!r.odd || p.id%2 == 1)
+			must := r.ret < p.call && acc
+			mustNot := r.call > p.ret || !acc
 			for _, x := range ops {
 				switch {
 				case x.kind == 1 && x.id == r.id && x.ok:
